@@ -243,6 +243,16 @@ def render_e3(wrap, lname):
             "function main() -> void { int cl = 5; C o = new C(); o.m(1b); o.m(0b); o.m(1b); echo(other(cl)); }\n" % wrap.format(L=lname))
 
 
+def render_e4(sname, lname):
+    """a field array sized by a static (found by a round-7 seeding agent in my own fix 980fd31): the size names the static, never a local or
+    parameter of whichever function creates the object"""
+    return ("class Reg { public static final int %s = 2; public int[%s] data; public qubit[%s] qs; public constructor() -> Reg = default; }\n"
+            "function mk() -> Reg { int %s = 5; return new Reg(); }\n"
+            "function mkp(int %s) -> Reg { return new Reg(); }\n"
+            "class Maker { public int %s = 4; public constructor() -> Maker = default; public function make() -> Reg { return new Reg(); } }\n"
+            "function main() -> void { Reg a = new Reg(); echo(a.data); echo(mk().data); echo(mkp(7).data); Maker m = new Maker(); echo(m.make().data); }\n" % (sname, sname, sname, lname, lname, lname))
+
+
 def e_items(tier):
     items = []
     for k in ((3, 4) if tier != "thorough" else (3, 4, 5)):
@@ -255,6 +265,8 @@ def e_items(tier):
     items.append((("E2",), combos))
     for i, w in enumerate(E3_WRAPS):
         items.append((("E3", i), [(w, ln) for ln in ("x", "cl", "p", "o", "c2", "m")]))
+    for sn in ("N", "size"):
+        items.append((("E4", sn), [(sn, ln) for ln in (sn, "data", "qs", "a", "m")]))
     return items
 
 
@@ -265,6 +277,8 @@ def _one_e(item):
         ref_src = render_e1(["u%d" % i for i in range(tag[1])])
     elif tag[0] == "E3":
         ref_src = render_e3(E3_WRAPS[tag[1]], "u0")
+    elif tag[0] == "E4":
+        ref_src = render_e4(tag[1], "u0")
     else:
         ref_src = render_e2("plainS", "plainF", "W")
     r0 = vdrv.run_src(ref_src, gc="own", warn=0)
@@ -272,7 +286,7 @@ def _one_e(item):
         return tag, [("reference", ref_src, "the uniquely named variant did not run: %s %s" % (r0.status(), (r0.rec or {}).get("msg", r0["fd2"][:200])))], 1, None
     want = (r0.rec["status"], r0.rec["stdout"])
     for v in variants:
-        src = render_e1(list(v)) if tag[0] == "E1" else render_e3(*v) if tag[0] == "E3" else render_e2(*v)
+        src = render_e1(list(v)) if tag[0] == "E1" else render_e3(*v) if tag[0] == "E3" else render_e4(*v) if tag[0] == "E4" else render_e2(*v)
         r = vdrv.run_src(src, gc="own", warn=0)
         n += 1
         if r.crash:
@@ -285,7 +299,7 @@ def _one_e(item):
 
 
 def _one(item):
-    if item[0][0] in ("E1", "E2", "E3"):
+    if item[0][0] in ("E1", "E2", "E3", "E4"):
         return _one_e(item)
     if item[0][0] == "D":
         return _one_d((item[0][1:], item[1]))
